@@ -96,7 +96,8 @@ def make_field(rng, mesh, nvdim, dtype=None, custom=None):
         kw["vdims"] = list(labels)
         if nvdim == mesh.region.ndim:
             perm = rng.permutation(nvdim)
-            kw["vdim_mapping"] = {labels[j]: mesh.region.dims[int(perm[j])] for j in range(nvdim)}
+            kw["vdim_mapping"] = gen.shuffle_keys(
+                rng, {labels[j]: mesh.region.dims[int(perm[j])] for j in range(nvdim)})
     if rng.random() < 0.3:
         kw["unit"] = gen.pick(rng, ["A/m", "T"])
     # the declared dtype: left to the library, or stated explicitly (int fields keep
